@@ -676,6 +676,30 @@ pub fn c04_alphabet() -> Vec<u32> {
     v
 }
 
+/// words that are not cards but look like one: every marked card (52 x 7), one-bit neighbours of three cards,
+/// a seeded sample of hybrids (fields of two different cards), and a few constants
+pub fn not_card_words(rng: &mut Rng, hybrids: usize) -> Vec<u32> {
+    let deck = layout_deck();
+    let mut v: Vec<u32> = Vec::new();
+    for &w in &deck {
+        for m in 1u32..8 {
+            v.push(w | (m << 29));
+        }
+    }
+    for &w in &[deck[0], deck[17], deck[51]] {
+        for b in 0..32 {
+            let x = w ^ (1 << b);
+            if !deck.contains(&x) { v.push(x); }
+        }
+    }
+    let hy = hybrid_words();
+    for _ in 0..hybrids {
+        v.push(hy[rng.below(hy.len() as u64) as usize]);
+    }
+    v.extend([u32::MAX, 1, 2, 23, u32::MAX - 1, 0x8000_0000, 0x1000_0000]);
+    v
+}
+
 /// words whose fields are each taken from a real card but do not belong together (rank bit of one card with
 /// the rank number / prime / suit of another): every field test passes, the word is not a card
 pub fn hybrid_words() -> Vec<u32> {
@@ -826,6 +850,24 @@ pub fn c11_hands(rng: &mut Rng, thorough: bool) -> Vec<Vec<u32>> {
             rng.shuffle(&mut idx);
             out.push(idx[..n].iter().map(|i| deck[*i]).collect());
         }
+        // card-shaped near-duplicates: two or three cards and words that differ from them only in a narrow field
+        // (prime bits, rank-number nibble, one suit bit, one rank bit) — any key that drops a field makes them tie
+        for _ in 0..(if thorough { 60_000 } else { 6_000 }) {
+            let base: Vec<u32> = (0..1 + rng.below(3)).map(|_| deck[rng.below(52) as usize]).collect();
+            let h: Vec<u32> = (0..n).map(|_| {
+                let c = base[rng.below(base.len() as u64) as usize];
+                match rng.below(8) {
+                    0 | 1 => c,
+                    2 => c ^ (1 << rng.below(6)),
+                    3 => c ^ (1 + rng.below(63) as u32),
+                    4 => c ^ (1 << (8 + rng.below(4))),
+                    5 => c ^ (1 << (12 + rng.below(4))),
+                    6 => c ^ (1 << (16 + rng.below(13))),
+                    _ => c ^ (1 << rng.below(32)),
+                }
+            }).collect();
+            out.push(h);
+        }
     }
     out
 }
@@ -947,6 +989,16 @@ pub fn c12_strings(rng: &mut Rng, thorough: bool) -> Vec<(String, String)> {
             out.push(("short-hand-text".into(), v.join(" ")));
         }
     }
+    // texts whose offsets cross a power-of-two boundary (an offset, a length or a count kept in a narrow integer)
+    let hand = "AS KD QH JC TS 9S 8S";
+    for len in [255usize, 256, 257, 65_534, 65_535, 65_536, 65_537, 70_000] {
+        out.push(("huge-text/leading-blanks".into(), format!("{}{hand}", " ".repeat(len))));
+        out.push(("huge-text/long-first-token".into(), format!("AS{} {hand}", "x".repeat(len))));
+        out.push(("huge-text/long-junk-token-in-the-middle".into(), format!("AS KD {} QH JC TS 9S 8S", "z".repeat(len))));
+        out.push(("huge-text/blanks-between-tokens".into(), format!("AS{}KD QH JC TS 9S 8S", "\t".repeat(len))));
+    }
+    out.push(("huge-text/wide-blanks".into(), format!("{}{hand}", "\u{3000}".repeat(22_000))));
+    out.push(("huge-text/many-tokens".into(), format!("{}AS KD", "2c ".repeat(66_000))));
     for _ in 0..(if thorough { 60_000 } else { 6_000 }) {
         let len = rng.below(14);
         let mut t = String::new();
@@ -1209,6 +1261,13 @@ pub fn cases(prop: &str, thorough: bool, seed: u64, c: &mut Cases) {
                 }
                 let ws: Vec<u32> = (0..n).map(|_| rng.next() as u32).collect();
                 c.emit(&format!("bc{n}/arbitrary-words"), &format!("bc {}", join(&ws)));
+                // a word that is not a card (marked card, one-bit neighbour, hybrid) in every slot in turn
+                let bad = not_card_words(&mut rng, if thorough { 2_000 } else { 200 });
+                for (k, &b) in bad.iter().enumerate() {
+                    let mut ws: Vec<u32> = (0..n).map(|_| sym[rng.below(52) as usize]).collect();
+                    ws[k % n] = b;
+                    c.emit(&format!("bc{n}/not-a-card-in-one-slot"), &format!("bc {}", join(&ws)));
+                }
             }
             let sets = bit_sets(&mut rng, if thorough { 60_000 } else { 6_000 });
             for &x in sets.iter().take(200) {
@@ -1516,7 +1575,14 @@ fn sweep_inner(prop: &str, thorough: bool, seed: u64) -> Sweep {
         "C01" => sweep_c01(seed, thorough),
         "C13" => sweep_c13(seed, thorough),
         "C05" => sweep_c05(seed, thorough),
-        "C06" => sweep_c06(),
+        "C06" => {
+            let mut s = sweep_c06();
+            let t = sweep_sixseven("C06", seed, thorough);
+            let rule = format!("{} | six- and seven-card hands (all six-card hands, shaped hands in every slot order, seeded hands): hand_rank() and hand_rank_validated() against the value, category and class of the best five cards", s.rule);
+            s.merge(t);
+            s.rule = rule;
+            s
+        }
         "C12" => sweep_c12(seed, thorough),
         "C19" => sweep_c19(seed, thorough),
         "C15" => sweep_c15(seed, thorough),
@@ -1535,6 +1601,25 @@ fn sweep_inner(prop: &str, thorough: bool, seed: u64) -> Sweep {
 const RANK_CHARS: [char; 13] = ['2', '3', '4', '5', '6', '7', '8', '9', 'T', 'J', 'Q', 'K', 'A'];
 const SUIT_GLYPHS: [char; 4] = ['♣', '♦', '♥', '♠'];
 const SUIT_LETTERS: [char; 4] = ['C', 'D', 'H', 'S'];
+
+/// debug rendering of a text with long runs of one character written as `<U+0020 x 65536>` (exact, but short)
+pub fn show_text(t: &str) -> String {
+    let cs: Vec<char> = t.chars().collect();
+    let mut out = String::from("\"");
+    let mut i = 0;
+    while i < cs.len() {
+        let mut j = i;
+        while j < cs.len() && cs[j] == cs[i] { j += 1; }
+        if j - i >= 24 {
+            out.push_str(&format!("<U+{:04X} x {}>", cs[i] as u32, j - i));
+        } else {
+            for c in &cs[i..j] { out.extend(c.escape_debug()); }
+        }
+        i = j;
+    }
+    out.push('"');
+    out
+}
 
 /// C10, implementation against the documented layout (no model involved).
 fn sweep_c10() -> Sweep {
@@ -2476,6 +2561,21 @@ fn sweep_sixseven(prop: &str, seed: u64, thorough: bool) -> Sweep {
                     s.fail("reported best hand is not a sorted five-card witness from the input (distinct, from input, descending, re-ranks to the value)", &join(&ws), &format!("value {v}"), &format!("hand {} distinct {distinct} from_input {from_input} sorted {sorted} rerank {rerank:?}", join(h)));
                 }
             }
+            "C06" => {
+                // the rank reported for the hand carries the value of the best five cards and names their category and class
+                let r = guarded(|| if n == 6 {
+                    let h = Six::from([ws[0], ws[1], ws[2], ws[3], ws[4], ws[5]]);
+                    (h.hand_rank(), h.hand_rank_validated())
+                } else {
+                    let h = Seven::from([ws[0], ws[1], ws[2], ws[3], ws[4], ws[5], ws[6]]);
+                    (h.hand_rank(), h.hand_rank_validated())
+                });
+                let want = (best, oracle.cat_name[best as usize].clone(), oracle.class_name[best as usize].clone());
+                match r {
+                    Some((a, b)) if (a.value, format!("{:?}", a.name), format!("{:?}", a.class)) == want && (b.value, format!("{:?}", b.name), format!("{:?}", b.class)) == want => {}
+                    other => s.fail(&format!("the rank reported for a {n}-card hand does not carry the value / category / class of its best five cards"), &join(&ws), &format!("{want:?}"), &format!("{other:?}")),
+                }
+            }
             _ => {
                 // C09: no oracle, only the implementation's own values
                 if n == 6 {
@@ -2870,6 +2970,45 @@ fn sweep_c08(seed: u64, thorough: bool) -> Sweep {
             }
         }
     }
+    // structured hands: one rank in every sequence of suits (all four suits of a rank in every slot order, pairs, repeats),
+    // suited runs in three orders, a full rank group plus extras in seeded orders
+    let mut structured: Vec<Vec<u32>> = Vec::new();
+    for n in 2..=7usize {
+        for rank in 0u32..13 {
+            for code in 0..4usize.pow(n as u32) {
+                structured.push((0..n).map(|k| layout_word(rank, (code / 4usize.pow(k as u32) % 4) as u32)).collect());
+            }
+        }
+        for suit in 0u32..4 {
+            for lo in 0u32..13 {
+                let run: Vec<u32> = (0..n as u32).map(|k| layout_word((lo + k) % 13, suit)).collect();
+                let mut rev = run.clone();
+                rev.reverse();
+                let mut sh = run.clone();
+                rng.shuffle(&mut sh);
+                structured.extend([run, rev, sh]);
+            }
+        }
+        if n > 4 {
+            for rank in 0u32..13 {
+                for _ in 0..40 {
+                    let mut h: Vec<u32> = (0..4).map(|su| layout_word(rank, su)).collect();
+                    while h.len() < n { h.push(sym[rng.below(53) as usize]); }
+                    rng.shuffle(&mut h);
+                    structured.push(h);
+                }
+            }
+        }
+    }
+    for ws in &structured {
+        s.evaluations += 1;
+        let n = ws.len();
+        let got = H::mk(ws).unwrap().shifted();
+        let want: Vec<u32> = ws.iter().map(|w| w.shift_suit()).collect();
+        if got != want {
+            s.fail(&format!("shifting a {n}-slot hand is not slot-wise"), &join(ws), &join(&want), &join(&got));
+        }
+    }
     // five cards: every hand, three shifts (and all 24 relabellings in thorough)
     let perms = suit_perms();
     let parts: Vec<Sweep> = par_ranges(48, 48, |lo, hi| {
@@ -3083,6 +3222,23 @@ fn sweep_c15(seed: u64, thorough: bool) -> Sweep {
             }
         }
     }
+    // a word that is not a card in every slot in turn: it contributes nothing
+    let bad = not_card_words(&mut rng, if thorough { 20_000 } else { 2_000 });
+    for n in 2..=7usize {
+        for slot in 0..n {
+            for &b in &bad {
+                let mut ws: Vec<u32> = (0..n).map(|_| sym[rng.below(52) as usize]).collect();
+                ws[slot] = b;
+                s.evaluations += 1;
+                s.nontrivial += 1;
+                let want = ws.iter().fold(0u64, |a, w| a | bit_of(*w));
+                let got = H::mk(&ws).unwrap().bc();
+                if got != want {
+                    s.fail("set built from a hand is not the set of its real cards (a slot holds a word that is not a card)", &join(&ws), &want.to_string(), &got.to_string());
+                }
+            }
+        }
+    }
     let sets = bit_sets(&mut rng, if thorough { 2_000_000 } else { 200_000 });
     for (k, &x) in sets.iter().enumerate() {
         s.evaluations += 1;
@@ -3136,7 +3292,7 @@ fn sweep_c15(seed: u64, thorough: bool) -> Sweep {
             s.fail("set built from a long text is not the set of the cards its tokens name", &format!("{} tokens: {}...{}", spec_tokens(&t).len(), &t[..24.min(t.len())], &t[t.len().saturating_sub(12)..]), &want.to_string(), &format!("{got:?}"));
         }
     }
-    s.rule = "hands of sizes 2..7 over {52 cards, blank} with repeats: from_n against the OR of the layout bit of every real card; structured (empty, full, singletons, rank groups, overflow bits, boundaries) and seeded 64-bit sets: fold_in, has, number_of_cards, is_single_card, is_valid against bit-level semantics and the full peel sequence (to exhaustion + 2) step by step; non-trivial = non-empty".into();
+    s.rule = "hands of sizes 2..7 over {52 cards, blank} with repeats, and hands with a word that is not a card (every marked card, one-bit neighbours, hybrids, constants) in every slot in turn: from_n against the OR of the layout bit of every real card; structured (empty, full, singletons, rank groups, overflow bits, boundaries) and seeded 64-bit sets: fold_in, has, number_of_cards, is_single_card, is_valid against bit-level semantics and the full peel sequence (to exhaustion + 2) step by step; non-trivial = non-empty".into();
     let mut x = 0b1011u64;
     s.sample(format!("peel x4 from 0b1011: {:?} leaving {}", [x.peel(), x.peel(), x.peel(), x.peel()], x));
     s
@@ -3215,21 +3371,21 @@ fn sweep_c12(seed: u64, thorough: bool) -> Sweep {
         if want != 0 { s.nontrivial += 1; }
         match guarded(|| <CKCNumber as PokerCard>::from_index(&t)) {
             Some(g) if g == want => {}
-            Some(g) => s.fail("card token", &format!("{t:?}"), &want.to_string(), &g.to_string()),
-            None => s.fail("card token parsing panics", &format!("{t:?}"), &want.to_string(), "panic"),
+            Some(g) => s.fail("card token", &show_text(&t), &want.to_string(), &g.to_string()),
+            None => s.fail("card token parsing panics", &show_text(&t), &want.to_string(), "panic"),
         }
         let toks = spec_tokens(&t);
         for n in 2..=7u64 {
             let want_h = if toks.len() < n as usize { "none".to_string() } else { join(toks[..n as usize].iter().map(|x| spec_token(x))) };
             let got = guarded(|| parse_hand(n, &t));
             if got.as_deref() != Some(&want_h) {
-                s.fail(&format!("{n}-slot hand parser"), &format!("{t:?}"), &want_h, &format!("{got:?}"));
+                s.fail(&format!("{n}-slot hand parser"), &show_text(&t), &want_h, &format!("{got:?}"));
             }
         }
         let want_bc = toks.iter().fold(0u64, |a, x| a | <BinaryCard as BC64>::from_ckc(spec_token(x)));
         match guarded(|| <BinaryCard as BC64>::from_index(&t)) {
             Some(g) if g == want_bc => {}
-            other => s.fail("bit-set from text", &format!("{t:?}"), &want_bc.to_string(), &format!("{other:?}")),
+            other => s.fail("bit-set from text", &show_text(&t), &want_bc.to_string(), &format!("{other:?}")),
         }
     }
     // every Unicode scalar as the first character (before a suit symbol) and as the second character (after a
@@ -3376,5 +3532,130 @@ fn sweep_c19(seed: u64, thorough: bool) -> Sweep {
     let mut t = Three::from([1, 2, 3]);
     t.set_third(9);
     s.sample(format!("Three[1,2,3].set_third(9) -> {:?}", t.to_arr()));
+    s
+}
+
+// ------------------------------------------------------------------------------------------------------------------
+// History search.  Run only when the source scan found state carried between calls (a static cache, an atomic …):
+// the crate is then no longer a function of its arguments, so single calls from a cold state prove nothing.  Pairs of
+// calls on *related* hands (the second one a small edit of the first: a suit moved, two slots swapped, a slot replaced
+// by a deck neighbour, a blank or a word that is not a card) are what a stale one-entry cache gets wrong.
+fn spec_best(oracle: &Oracle5, deck: &[u32; 52], w: &[u32]) -> u16 {
+    let idx: Vec<usize> = w.iter().map(|x| deck.iter().position(|d| d == x).unwrap()).collect();
+    let n = idx.len();
+    let mut best = u16::MAX;
+    for mask in 0u32..1 << n {
+        if mask.count_ones() != 5 { continue; }
+        let mut five = [0usize; 5];
+        let mut k = 0;
+        for i in 0..n { if mask >> i & 1 == 1 { five[k] = idx[i]; k += 1; } }
+        best = best.min(oracle.of_indices(&five).0);
+    }
+    best
+}
+
+fn history_check(s: &mut Sweep, oracle: &Oracle5, deck: &[u32; 52], before: &[u32], w: &[u32], free_fn: bool) {
+    let n = w.len();
+    let valid = w.iter().all(|x| deck.contains(x)) && (0..n).all(|i| (0..i).all(|j| w[i] != w[j]));
+    let cards_or_blank = w.iter().all(|x| *x == 0 || deck.contains(x));
+    let want = if valid { spec_best(oracle, deck, w) } else { 0 };
+    let inp = format!("after ranking {} : {}", join(before), join(w));
+    s.evaluations += 1;
+    if valid { s.nontrivial += 1; }
+    macro_rules! go {
+        ($h:expr) => {{
+            let h = $h;
+            match guarded(|| (h.hand_rank_value_validated(), h.hand_rank_validated().value)) {
+                Some((a, b)) if a == want && b == want => {}
+                other => s.fail("validated ranking depends on the call before it", &inp, &want.to_string(), &format!("{other:?}")),
+            }
+            if valid || cards_or_blank {
+                match guarded(|| { let (v, f) = h.hand_rank_value_and_hand(); (v, f.to_arr(), h.hand_rank_value(), h.hand_rank().value) }) {
+                    Some((v, f, a, b)) => {
+                        if valid && [v, a, b] != [want; 3] {
+                            s.fail("ranking depends on the call before it", &inp, &want.to_string(), &format!("{:?}", [v, a, b]));
+                        }
+                        if valid {
+                            let ok = f.iter().all(|x| w.contains(x)) && (n == 5 || f.windows(2).all(|p| p[0] > p[1]))
+                                && guarded(|| Five::from(f).hand_rank_value()) == Some(v);
+                            if !ok { s.fail("reported best hand depends on the call before it", &inp, &format!("five of the input with value {v}"), &format!("{f:?}")); }
+                        }
+                        if n == 5 && w.contains(&0) && [v, a, b] != [0; 3] {
+                            s.fail("a five-slot hand with a blank got a value", &inp, "0", &format!("{:?}", [v, a, b]));
+                        }
+                    }
+                    None => s.fail("ranking panics on card-or-blank slots", &inp, "returns", "panic"),
+                }
+            }
+        }};
+    }
+    match n {
+        5 => {
+            go!(Five::from([w[0], w[1], w[2], w[3], w[4]]));
+            if free_fn {
+                #[allow(deprecated)]
+                match guarded(|| ckc_rs::evaluate::five_cards([w[0], w[1], w[2], w[3], w[4]])) {
+                    Some(v) if v == want => {}
+                    other => s.fail("evaluate::five_cards depends on the call before it", &inp, &want.to_string(), &format!("{other:?}")),
+                }
+            }
+        }
+        6 => go!(Six::from([w[0], w[1], w[2], w[3], w[4], w[5]])),
+        _ => go!(Seven::from([w[0], w[1], w[2], w[3], w[4], w[5], w[6]])),
+    }
+}
+
+pub fn history(prop: &str, seed: u64) -> Sweep {
+    let mut s = Sweep::default();
+    if !matches!(prop, "C01" | "C02" | "C03" | "C04" | "C05" | "C06" | "C08" | "C09" | "C13") {
+        s.rule = "no history search is defined for this property".into();
+        s.samples.push(Json::esc("(none)"));
+        return s;
+    }
+    s.rule = "pairs of consecutive ranking calls on related hands of 5, 6 and 7 slots (the second a 1-3 step edit of the first: suit of a slot changed, two slots swapped, a slot replaced by a deck neighbour / another card / blank / a word that is not a card), every entry point, against the class oracle; single thread, bounded time".into();
+    let oracle = Oracle5::load();
+    let deck = layout_deck();
+    let mut rng = Rng::new(seed ^ 0x4157);
+    let junk = not_card_words(&mut rng, 50);
+    let t0 = std::time::Instant::now();
+    let budget = std::time::Duration::from_secs(std::env::var("CKC_HISTORY_SECS").ok().and_then(|x| x.parse().ok()).unwrap_or(30));
+    let sizes: &[usize] = match prop { "C01" | "C13" => &[5], "C02" | "C03" | "C09" => &[6, 7], _ => &[5, 6, 7] };
+    let with_junk = matches!(prop, "C04" | "C05");
+    let mut round = 0u64;
+    while t0.elapsed() < budget && s.failure_count < 8 {
+        round += 1;
+        let n = sizes[(round % sizes.len() as u64) as usize];
+        let mut idx: Vec<usize> = (0..52).collect();
+        rng.shuffle(&mut idx);
+        let mut x: Vec<u32> = idx[..n].iter().map(|i| deck[*i]).collect();
+        match rng.below(4) { 0 => x.sort_unstable_by(|a, b| b.cmp(a)), 1 => x.sort_unstable(), _ => {} }
+        history_check(&mut s, &oracle, &deck, &[], &x, true);
+        // a short chain of relatives, each ranked right after the one it was derived from
+        let mut cur = x.clone();
+        for _ in 0..6 {
+            let mut y = cur.clone();
+            for _ in 0..1 + rng.below(3) {
+                let k = rng.below(n as u64) as usize;
+                let pos = deck.iter().position(|d| *d == y[k]);
+                y[k] = match (rng.below(if with_junk { 9 } else { 6 }), pos) {
+                    (0, Some(p)) => deck[(p + 13 * (1 + rng.below(3) as usize)) % 52],
+                    (1, Some(p)) => deck[(p + 1) % 52],
+                    (2, Some(p)) => deck[(p + 51) % 52],
+                    (3, _) => { let j = rng.below(n as u64) as usize; let t = y[j]; y[j] = y[k]; t }
+                    (4, _) => deck[rng.below(52) as usize],
+                    (5, Some(p)) => deck[(p / 13) * 13 + rng.below(13) as usize],
+                    (6, _) => 0,
+                    (7, _) => junk[rng.below(junk.len() as u64) as usize],
+                    (8, _) => 0,
+                    (_, None) => deck[rng.below(52) as usize],
+                    _ => unreachable!(),
+                };
+            }
+            if y == cur { continue; }
+            history_check(&mut s, &oracle, &deck, &cur, &y, true);
+            cur = y;
+        }
+    }
+    s.sample(format!("{round} chains of 7 related hands in {:.1} s", t0.elapsed().as_secs_f64()));
     s
 }
